@@ -245,7 +245,7 @@ def _worker(args):
     ctx = Ctx(paths)
     stats = Stats()
     sfn = _sample_fn(mod)
-    state = {"last_fail": None, "fail_hash": None, "post": 0, "t_fail": None}
+    state = {"last_fail": None, "fail_hash": None, "post": 0, "t_fail": None, "prev": None, "fail_prev": None}
     shrink_seconds = float(os.environ.get("VERIF_SHRINK_SECONDS", "90" if tier == "quick" else "300"))
     shrink_budget = int(os.environ.get("VERIF_SHRINK_EVALS", "400" if tier == "quick" else "1500"))
 
@@ -270,9 +270,11 @@ def _worker(args):
         if res.fail:
             state["last_fail"] = (case, res.fail)
             state["fail_hash"] = case_hash(case)
+            state["fail_prev"] = state["prev"]          # what the same executors ran just before (see confirm_seq)
             if state["t_fail"] is None:
                 state["t_fail"] = time.time()
             raise Fail(res.fail)
+        state["prev"] = case
 
     out = {"widx": widx, "fail": None, "error": None}
     try:
@@ -291,6 +293,7 @@ def _worker(args):
     finally:
         ctx.close()
     out["stats"] = stats.dump()
+    out["fail_prev"] = state["fail_prev"]
     return out
 
 
@@ -330,13 +333,15 @@ def write_evidence(mod, tier, seed, cov, wall, violations, assumptions=None):
     os.rename(tmp, os.path.join(EVID, mod.ID + ".json"))
 
 
-def save_replay(mod, case, msg, tag="fail", build_name=None):
+def save_replay(mod, case, msg, tag="fail", build_name=None, prefix=None):
     d = os.path.join(OUT, mod.ID)
     os.makedirs(d, exist_ok=True)
     p = os.path.join(d, "%s-%s.case" % (tag, case_hash(case)))
     rec = {"property": mod.ID, "case": case, "message": msg}
     if build_name:
         rec["build"] = build_name
+    if prefix:
+        rec["prefix"] = prefix        # cases the same executor has to run first (state that outlives a case)
     with open(p, "w") as f:
         json.dump(rec, f, indent=1)
     return p
@@ -359,6 +364,32 @@ def confirm(mod, paths, case, times=3, need=None):
             break
         ctx = Ctx(paths)
         try:
+            res = mod.run_case(ctx, case)
+            if res.fail:
+                n += 1
+                msg = res.fail
+        finally:
+            ctx.close()
+    return n, msg
+
+
+def confirm_seq(mod, paths, prefix, case, times=3, need=None):
+    """Like confirm(), but every fresh executor first runs the cases of `prefix` (their outcome is ignored): some
+    failures need state that outlives a case inside the tested library (a static cache, a collector that was torn
+    down) and never show when the case is the first one a process sees."""
+    n = 0
+    msg = None
+    need = need or times
+    for k in range(times):
+        if n >= need or n + (times - k) < need:
+            break
+        ctx = Ctx(paths)
+        try:
+            for pc in prefix:
+                try:
+                    mod.run_case(ctx, pc)
+                except HarnessBug:
+                    pass
             res = mod.run_case(ctx, case)
             if res.fail:
                 n += 1
@@ -477,6 +508,11 @@ def main(modname, argv):
             print("replay: pass")
             return 0
         ctx = Ctx(paths)
+        for pc in (meta.get("prefix") or []) if isinstance(meta, dict) else []:
+            try:
+                mod.run_case(ctx, pc)
+            except HarnessBug:
+                pass
         res = mod.run_case(ctx, case)
         ctx.close()
         if res.fail:
@@ -596,8 +632,15 @@ def main(modname, argv):
                 n, m2 = confirm(mod, paths_alt if wb else paths, case, need[1], need[0])
                 if n >= need[0]:
                     violations.append((save_replay(mod, case, msg, "fail", wb), msg))
-                else:
-                    unstable.append((save_replay(mod, case, msg, "unstable", wb), msg))
+                    continue
+                prev = r.get("fail_prev")
+                if prev is not None:
+                    n, m2 = confirm_seq(mod, paths_alt if wb else paths, [prev], case, need[1], need[0])
+                    if n >= need[0]:
+                        msg = "[only after another case in the same process] " + msg
+                        violations.append((save_replay(mod, case, msg, "fail", wb, [prev]), msg))
+                        continue
+                unstable.append((save_replay(mod, case, msg, "unstable", wb), msg))
 
     if getattr(mod, "FUZZ", None) and not violations:
         fz, fv = fuzz_phase(mod, paths, tier, seed)
